@@ -63,19 +63,23 @@ def run(prog: Program, res: Result) -> None:
     res.count("auxiliary-inplace-updates(noted)", aux)
 
     # R2 evolution append-only inside optimize
-    opt = prog.func(f"{ABSTRACT}.optimize")
-    ev_uses = [n for n in own_nodes(opt) if isinstance(n, ast.Name) and n.id == "evolution"]
+    from ..optmodel import extract, is_population_call
+    om = extract(prog)
+    opt = om.fn
+    hist = om.history
+    ev_uses = [n for n in own_nodes(opt) if isinstance(n, ast.Name) and n.id == hist]
     res.count("evolution-uses", len(ev_uses))
-    res.floor("evolution-uses", 4)
+    res.floor("evolution-uses", 2)
     for n in ev_uses:
         p = parent(n)
         ok = False
         if isinstance(n.ctx, ast.Store):
             st = p
-            ok = isinstance(st, (ast.Assign, ast.AnnAssign)) and isinstance(st.value, ast.List) and not st.value.elts
+            ok = isinstance(st, (ast.Assign, ast.AnnAssign)) and isinstance(st.value, ast.List) and (
+                not st.value.elts or (len(st.value.elts) == 1 and is_population_call(st.value.elts[0])))
         elif isinstance(p, ast.Attribute) and p.attr == "append" and isinstance(parent(p), ast.Call):
             c = parent(p)
-            ok = len(c.args) == 1 and isinstance(c.args[0], ast.Call) and dotted(c.args[0].func) == "Population"
+            ok = len(c.args) == 1 and is_population_call(c.args[0])
         elif isinstance(p, ast.keyword) and p.arg == "evolution":
             ok = True
         res.ob(ok, f"{opt.module.relpath}:{n.lineno} {norm(parent(p) if isinstance(p, ast.Attribute) else p, 80)}",
